@@ -139,3 +139,26 @@ def test_c17_garbage_is_not_taken_for_hstrp_under_python_O():
         "    print('REFUSED')\n"
     )
     assert r.stdout.strip() == "REFUSED", r.stdout + r.stderr
+
+
+def test_c04_hrnp_checksum_covers_the_bytes_it_sends_when_the_date_changes_during_serialisation():
+    import datetime as _dt
+    import okdmr.dmrlib.hytera.pdu.location_protocol as lpm
+    from okdmr.dmrlib.hytera.pdu.hrnp import HRNP, HRNPOpcodes
+    from okdmr.dmrlib.hytera.pdu.radio_ip import RadioIP
+
+    days = iter(range(1, 1000))
+
+    class TickingDate(_dt.date):
+        @classmethod
+        def today(cls):
+            return cls(2023, 11, 14) + _dt.timedelta(days=next(days))
+
+    real = lpm.date
+    lpm.date = TickingDate
+    try:
+        lp = lpm.LocationProtocol(opcode=lpm.LocationProtocolSpecificService.StandardReport, request_id=7, radio_ip=RadioIP(radio_id=1001, subnet=10))
+        raw = HRNP(opcode=HRNPOpcodes.DATA, data=lp, source=0x20, destination=0x10, block_number=0, packet_number=1, version=4).as_bytes()
+    finally:
+        lpm.date = real
+    assert HRNP.from_bytes(raw).checksum_correct is True
